@@ -8,7 +8,11 @@ pub(crate) fn union_without_unsafe(meta: &Meta) -> syn::Error {
     match s.len() {
         4 => s.push_str("(unsafe)"),
         6 => s.insert_str(5, "unsafe"),
-        _ => unreachable!(),
+        _ => {
+            // other list delimiters, e.g. `Hash {}` or `Hash []`
+            s.truncate(4);
+            s.push_str("(unsafe)");
+        },
     }
 
     syn::Error::new(
